@@ -414,6 +414,12 @@ func (x *Explorer) libModel(st *State, f *Frame, ins ssa.Instruction, key string
 		}
 		x.assumed["proto.Unmarshal is total: it returns an error or fills the message with arbitrary field values"]++
 		return st.freshVal(sig.Results().At(0).Type(), "unmarshal_err"), true
+	case "github.com/ipfs/go-datastore.Key.Equal":
+		a, ok1 := args[0].(VStruct)
+		k2, ok2 := args[1].(VStruct)
+		if ok1 && ok2 {
+			return VInt{T: Eq(asInt(a.F[0]), asInt(k2.F[0]))}, true
+		}
 	case "bytes.Equal":
 		a, b := args[0].(VSlice), args[1].(VSlice)
 		return VInt{T: Eq(st.bval(a), st.bval(b))}, true
